@@ -12,7 +12,8 @@
 Require Import Cherab.Common.Qx.
 Require Import Cherab.Model.C16_Instruments.
 Require Import Cherab.Proofs.C16_Base Cherab.Proofs.C16_Spectrometer Cherab.Proofs.C16_CzernyTurner
-               Cherab.Proofs.C16_Polychromator Cherab.Proofs.C16_Range Cherab.Proofs.C16_Calibrate.
+               Cherab.Proofs.C16_Polychromator Cherab.Proofs.C16_Range Cherab.Proofs.C16_Calibrate
+               Cherab.Proofs.C16_Round Cherab.Proofs.C16_Filters.
 From Coq Require Import String.
 Open Scope Q_scope.
 
@@ -108,8 +109,9 @@ Theorem C16_bin_width_bound_float :
 Proof. exact bin_width_bound_float. Qed.
 Print Assumptions C16_bin_width_bound_float.
 
-(* Polychromator, exact arithmetic; partial: no rounded-arithmetic version is proved for the
-   polychromator formula (the argument is the one of C16_bin_width_bound_float) *)
+(* Polychromator, exact arithmetic (the rounded-arithmetic versions are C16_bin_width_bound_polychromator_float
+   and _double below; the hypothesis on the filters is discharged for trapezoidal filters by
+   C16_trapezoid_range_exact) *)
 Theorem C16_bin_width_bound_polychromator :
   forall mbpw fs mn mx n, (0 < mbpw)%Z -> (forall f, In f fs -> f_min f < f_max f /\ 0 < f_window f) ->
   d_min (pc_derive exact mbpw fs) = Some (Fin mn) -> d_max (pc_derive exact mbpw fs) = Some (Fin mx) ->
@@ -146,6 +148,85 @@ Theorem C16_spectrum_integral_additive :
   forall xs ys a b c, pl_integral xs ys a b + pl_integral xs ys b c == pl_integral xs ys a c.
 Proof. exact pl_integral_additive. Qed.
 Print Assumptions C16_spectrum_integral_additive.
+
+(* ---- deepening round ---- *)
+
+(* round53, the rounding the correspondence runs the model with (round-to-nearest-even to 53 significant
+   bits), has relative error at most 2^-53 on every non-negative rational: proved, no longer trusted *)
+Theorem C16_round53_relative_error :
+  forall x, 0 <= x -> (1 - u53) * x <= round53 x /\ round53 x <= (1 + u53) * x.
+Proof. exact round53_rel. Qed.
+Print Assumptions C16_round53_relative_error.
+
+(* hence the bin-width bound for the model in double arithmetic, with no hypothesis on the rounding:
+   (max-min)/bins <= ((1+2^-53)/(1-2^-53))^2 * pixel width / min_bins_per_pixel *)
+Theorem C16_bin_width_bound_double :
+  forall mbpp w2p mn mx n, forallb valid_arr w2p = true -> (0 < mbpp)%Z ->
+  d_min (sp_derive round53 mbpp w2p) = Some (Fin mn) -> d_max (sp_derive round53 mbpp w2p) = Some (Fin mx) ->
+  d_bins (sp_derive round53 mbpp w2p) = Some n ->
+  forall a, In a w2p -> forall x y, In (x, y) (pixels a) ->
+  (0 < n)%Z /\
+  (1 - u53) * (1 - u53) * (mx - mn) <= inject_Z n * ((1 + u53) * (1 + u53) * ((y - x) / inject_Z mbpp)).
+Proof. exact (bin_width_bound_float round53 u53 (proj1 u53_range) (proj2 u53_range) round53_rel). Qed.
+Print Assumptions C16_bin_width_bound_double.
+
+(* Polychromator in rounded arithmetic (was missing in the first round) *)
+Theorem C16_bin_width_bound_polychromator_float :
+  forall (rnd : Q -> Q) (u : Q), 0 <= u -> u < 1 ->
+  (forall x, 0 <= x -> (1 - u) * x <= rnd x /\ rnd x <= (1 + u) * x) ->
+  forall mbpw fs mn mx n, (0 < mbpw)%Z -> (forall f, In f fs -> f_min f < f_max f /\ 0 < f_window f) ->
+  d_min (pc_derive rnd mbpw fs) = Some (Fin mn) -> d_max (pc_derive rnd mbpw fs) = Some (Fin mx) ->
+  d_bins (pc_derive rnd mbpw fs) = Some n ->
+  forall f, In f fs ->
+  (0 < n)%Z /\
+  (1 - u) * (1 - u) * (mx - mn) <= inject_Z n * ((1 + u) * (1 + u) * (f_window f / inject_Z mbpw)).
+Proof. exact bin_width_bound_pc_float. Qed.
+Print Assumptions C16_bin_width_bound_polychromator_float.
+
+Theorem C16_bin_width_bound_polychromator_double :
+  forall mbpw fs mn mx n, (0 < mbpw)%Z -> (forall f, In f fs -> f_min f < f_max f /\ 0 < f_window f) ->
+  d_min (pc_derive round53 mbpw fs) = Some (Fin mn) -> d_max (pc_derive round53 mbpw fs) = Some (Fin mx) ->
+  d_bins (pc_derive round53 mbpw fs) = Some n ->
+  forall f, In f fs ->
+  (0 < n)%Z /\
+  (1 - u53) * (1 - u53) * (mx - mn) <= inject_Z n * ((1 + u53) * (1 + u53) * (f_window f / inject_Z mbpw)).
+Proof. exact (bin_width_bound_pc_float round53 u53 (proj1 u53_range) (proj2 u53_range) round53_rel). Qed.
+Print Assumptions C16_bin_width_bound_polychromator_double.
+
+(* PolychromatorFilter: the declared range [min_wavelength, max_wavelength] contains every wavelength the
+   filter was built from, both ends are among them, window = max - min (one rounding) *)
+Theorem C16_filter_range :
+  forall (rnd : Q -> Q) id name ws f, mk_filter rnd id name ws = Ok f ->
+  (forall x, In x ws -> f_min f <= x /\ x <= f_max f) /\ f_window f = rnd (f_max f - f_min f)
+  /\ In (f_min f) ws /\ In (f_max f) ws.
+Proof. exact mk_filter_range. Qed.
+Print Assumptions C16_filter_range.
+
+(* TrapezoidalFilter, exact arithmetic, every accepted argument set (flat_top None / 0 / in (0, window]):
+   the filter exists, its range is [c - window/2, c + window/2] and its window is the window asked for;
+   so f_min < f_max and 0 < f_window, the hypothesis of the polychromator bin-width bounds *)
+Theorem C16_trapezoid_range_exact :
+  forall eps id name c w ft, 0 <= eps -> eps <= 1 -> 0 < c -> 0 < w ->
+  match ft with None => True | Some t => t == 0 \/ (0 < t /\ t <= w) end ->
+  exists f, mk_trapezoid exact eps id name c w ft = Ok f /\
+            f_min f == c - (1 # 2) * w /\ f_max f == c + (1 # 2) * w /\ f_window f == w.
+Proof. exact trapezoid_exact. Qed.
+Print Assumptions C16_trapezoid_range_exact.
+
+(* calibrate as a public call: TypeError for a non-Spectrum; for a Spectrum whose range covers the instrument
+   one calibrated array per accommodated spectrum (to which C16_calibrate_conserves applies); ValueError otherwise.
+   (In the first round the guards were only compared case by case.) *)
+Theorem C16_calibrate_call_outcomes :
+  forall integral mn mx w2p a,
+  match a with
+  | ANotSpectrum => calibrate_call integral mn mx w2p a = Err ErrType
+  | ASpectrum smin smax xs ys =>
+    (smin <= mn -> mx <= smax ->
+       calibrate_call integral mn mx w2p a = Ok (map (calibrate_arr (integral xs ys)) w2p)) /\
+    (mn < smin \/ smax < mx -> calibrate_call integral mn mx w2p a = Err ErrValue)
+  end.
+Proof. exact calibrate_call_spec. Qed.
+Print Assumptions C16_calibrate_call_outcomes.
 
 (* the hypotheses are satisfiable: the example of the class docstring (exact arithmetic gives the
    2070 bins the implementation reports) *)
